@@ -28,6 +28,120 @@ pub struct GenCfg {
     pub max_depth: u8,
     /// allow int 3 and trap-flag set/clear sequences in the main part (C20)
     pub stepping: bool,
+    /// names of generated code labels and procedures: 0..=2 synthetic (L3, p_0); otherwise words of `name_vocab()`
+    /// (program vocabulary and words that are keywords of a downstream grammar only), chosen by this value
+    pub vocab: u8,
+}
+
+/// Words a programmer may use as a label or procedure name and which the assembler of the working tree accepts as
+/// both: plausible program vocabulary (in three letter cases) and every identifier-like terminal that only a
+/// DOWNSTREAM grammar (interpreter, data loader, print reader) knows.  A name is a name: a program must run the same
+/// whatever its labels are called, so the generator renames the labels and procedures of one program in four to
+/// words from this list and the reference (which never looks at names) must still be matched.
+pub fn name_vocab() -> &'static Vec<String> {
+    static V: std::sync::OnceLock<Vec<String>> = std::sync::OnceLock::new();
+    V.get_or_init(|| {
+        let mut words: Vec<String> = crate::grammar::downstream_only_words();
+        for w in [
+            "end", "halt", "stop", "exit", "quit", "done", "next", "main", "begin", "data", "code", "stack", "again", "skip", "fail", "ok", "error", "org", "equ", "proc", "endp", "ptr", "short", "near", "far", "dup",
+            "segment", "ends", "assume", "include", "label", "n", "q", "x", "line", "output", "input", "trap", "step", "run", "show", "dump", "regs", "flag", "memory", "ip", "pc", "eax", "repeat", "until", "while",
+            "if", "then", "else", "retn", "retf", "leave", "enter", "jump", "goto", "top", "bottom", "body", "tail", "head", "entry", "finish", "continue", "break", "return", "begin_", "_end", "init", "out1", "in1",
+        ] {
+            words.push(w.to_string());
+        }
+        let mut vars: Vec<String> = Vec::new();
+        for w in &words {
+            vars.push(w.clone());
+            vars.push(w.to_uppercase());
+            let mut c = w.chars();
+            if let Some(f) = c.next() {
+                vars.push(format!("{}{}", f.to_uppercase(), c.as_str()));
+            }
+        }
+        vars.sort();
+        vars.dedup();
+        let reserved = |w: &str| {
+            let l = w.to_lowercase();
+            l == "start" || l == "pre_entry" || l == "pre_back" || l == "before_proc" || l.starts_with("d_") || l.starts_with("p_") || (l.starts_with('l') && l[1..].chars().all(|c| c.is_ascii_digit()) && l.len() > 1)
+        };
+        vars.into_iter()
+            .filter(|w| !reserved(w))
+            .filter(|w| {
+                crate::pipeline::assemble(&format!("start: jmp {w}\njz {w}\nloop {w}\n{w}:\nhlt\n", w = w)).is_ok()
+                    && crate::pipeline::assemble(&format!("def {w} {{ stc }}\nstart: call {w}\n", w = w)).is_ok()
+            })
+            .collect()
+    })
+}
+
+/// rename the synthetic labels (L<n>) and procedures (p_<n>, P_<n>) of a program to vocabulary words; one name maps to
+/// one word in both name spaces, different names to different words
+fn apply_vocab(p: &mut Program, sel: u8) {
+    let vocab = name_vocab();
+    if vocab.is_empty() {
+        return;
+    }
+    fn synthetic(n: &str) -> bool {
+        let b = n.as_bytes();
+        (b.len() >= 2 && b[0] == b'L' && b[1..].iter().all(|c| c.is_ascii_digit())) || ((n.starts_with("p_") || n.starts_with("P_")) && n.len() > 2 && b[2..].iter().all(|c| c.is_ascii_digit()))
+    }
+    let mut map: std::collections::BTreeMap<String, String> = Default::default();
+    let mut used: std::collections::BTreeSet<String> = Default::default();
+    let mut next = (sel as usize).wrapping_mul(7919) % vocab.len();
+    let mut lookup = |n: &str, map: &mut std::collections::BTreeMap<String, String>| -> String {
+        if !synthetic(n) {
+            return n.to_string();
+        }
+        if let Some(w) = map.get(n) {
+            return w.clone();
+        }
+        let mut tries = 0;
+        while used.contains(&vocab[next]) && tries < vocab.len() {
+            next = (next + 1) % vocab.len();
+            tries += 1;
+        }
+        if tries >= vocab.len() {
+            return n.to_string();
+        }
+        let w = vocab[next].clone();
+        used.insert(w.clone());
+        next = (next + 31) % vocab.len();
+        map.insert(n.to_string(), w.clone());
+        w
+    };
+    fn walk(items: &mut [Item], lookup: &mut dyn FnMut(&str) -> String) {
+        for it in items.iter_mut() {
+            match it {
+                Item::Label(n) => *n = lookup(n),
+                Item::Ins(i) => {
+                    for o in i.ops.iter_mut() {
+                        if let Opd::Name(n) = o {
+                            *n = lookup(n);
+                        }
+                    }
+                }
+                Item::Proc { name, body } => {
+                    *name = lookup(name);
+                    walk(body, lookup);
+                }
+                _ => {}
+            }
+        }
+    }
+    let mut f = |n: &str| lookup(n, &mut map);
+    walk(&mut p.code, &mut f);
+}
+
+/// does the program use a vocabulary word as a label or procedure name (evidence class)
+pub fn uses_vocab_names(p: &Program) -> bool {
+    fn any(items: &[Item], v: &[String]) -> bool {
+        items.iter().any(|it| match it {
+            Item::Label(n) => v.binary_search(n).is_ok(),
+            Item::Proc { name, body } => v.binary_search(name).is_ok() || any(body, v),
+            _ => false,
+        })
+    }
+    any(&p.code, name_vocab())
 }
 
 fn marker(c: u8) -> Vec<Item> {
@@ -269,7 +383,11 @@ pub fn build_program(g: &GenCfg) -> Program {
         // everything above is dead code; start is the last thing in the file
         code.push(Item::Label("start".into()));
     }
-    Program { data, code }
+    let mut prog = Program { data, code };
+    if g.vocab >= 3 {
+        apply_vocab(&mut prog, g.vocab);
+    }
+    prog
 }
 
 fn tok_s() -> BoxedStrategy<Tok> {
@@ -287,8 +405,9 @@ pub fn gencfg_s(max_main: usize, max_procs: usize) -> BoxedStrategy<GenCfg> {
         any::<bool>(),
         any::<bool>(),
         1u8..=3,
+        prop_oneof![3 => 0u8..3, 1 => 3u8..=255],
     )
-        .prop_map(|(toks_pre, procs, toks_main, start_pos, label_before_proc, trailing_label, with_prints, with_data, max_depth)| GenCfg {
+        .prop_map(|(toks_pre, procs, toks_main, start_pos, label_before_proc, trailing_label, with_prints, with_data, max_depth, vocab)| GenCfg {
             toks_pre,
             procs,
             toks_main,
@@ -299,6 +418,7 @@ pub fn gencfg_s(max_main: usize, max_procs: usize) -> BoxedStrategy<GenCfg> {
             with_data,
             max_depth,
             stepping: false,
+            vocab,
         })
         .boxed()
 }
